@@ -938,6 +938,89 @@ Plan gen_c18(uint64_t seed, bool th) {
   return g.p;
 }
 
+// ---------------------------------------------------------------- C15: descriptors arrive intact and are never leaked
+
+Plan gen_c15(uint64_t seed, bool th) {
+  G g(seed, th);
+  g.p.prop = "C15";
+  g.p.seed = seed;
+  base_shape(g, 2, th ? 6 : 5);
+  long max_msg = g.r.pct(60) ? (long)g.r.range(1, 4) : 16;
+  if (max_msg != 16) g.p.cfg["lim.msg_fds"] = std::to_string(max_msg);
+  g.p.cfg["lim.pending_fd_timeout"] = std::to_string(g.r.pct(50) ? 300 : 2000);
+  if (g.r.pct(30)) g.p.cfg["lim.in_fds"] = std::to_string(g.r.range(2, 8));
+  // a policy that refuses some of the traffic: the refused messages' descriptors must be closed too
+  bool with_policy = g.r.pct(45);
+  if (with_policy) {
+    pol::Policy p;
+    pol::Block b;
+    b.ctx = pol::Block::DEFAULT;
+    { pol::Rule r = prule(true, pol::Rule::USER); r.who = "*"; b.rules.push_back(r); }
+    { pol::Rule r = prule(true, pol::Rule::OWN); r.own = "*"; b.rules.push_back(r); }
+    { pol::Rule r = prule(true, pol::Rule::SEND); r.star_peer = true; b.rules.push_back(r); }
+    { pol::Rule r = prule(true, pol::Rule::RECEIVE); r.star_peer = true; b.rules.push_back(r); }
+    int k = (int)g.r.below(4);
+    if (k == 0) { pol::Rule r = prule(false, pol::Rule::SEND); r.interface = pol::Opt("com.example.Denied"); b.rules.push_back(r); }
+    else if (k == 1) { pol::Rule r = prule(false, pol::Rule::SEND); r.min_fds = 2; b.rules.push_back(r); }
+    else if (k == 2) { pol::Rule r = prule(false, pol::Rule::RECEIVE); r.interface = pol::Opt("com.example.Denied"); b.rules.push_back(r); }
+    else { pol::Rule r = prule(false, pol::Rule::SEND); r.max_fds = 0; r.type = pol::Opt("signal"); b.rules.push_back(r); }
+    p.blocks.push_back(b);
+    g.p.cfg["policy.spec"] = pol::encode(p);
+  }
+  for (int i = 0; i < g.sh.nclients; i++) {
+    int64_t rxcap = g.r.pct((unsigned)g.sh.rxcap_small_pct) ? g.r.range(64, 4096) : 0;
+    g.add(g.mk("connect", i, {0, 0, 1000 + i, g.r.pct(75) ? 1 : 0, rxcap}));
+    g.add(g.mk("auth", i, {1}));
+    g.add(g.mk("hello", i, {-1}));
+    g.add(g.bus_step(3));
+    g.add(g.mk("drain", i));
+  }
+  for (int i = 0; i < g.sh.nclients; i++) {
+    if (g.r.pct(50)) g.add(g.mk("reqname", i, {(int64_t)g.r.below(8), -1}, {g.a_name()}));
+    if (g.r.pct(55)) g.add(g.mk("addmatch", i, {-1}, {g.r.pct(70) ? "type='signal',interface='com.example.Iface'" : "type='signal'"}));
+    if (g.r.pct(10)) g.add(g.mk("addmatch", i, {-1}, {"eavesdrop='true'"}));
+  }
+  g.add(g.bus_step(3));
+  g.add(g.mk("check"));
+  int nops = (int)g.r.range(5, th ? 50 : 22);
+  for (int op = 0; op < nops; op++) {
+    int x = (int)g.r.below(100);
+    int from = g.a_client();
+    if (x < 62) {
+      // a message with descriptors
+      long nf = g.r.pct(10) ? 0 : (long)g.r.range(1, g.r.pct(15) ? max_msg + 2 : std::min<long>(max_msg, 4));
+      long delta = g.r.pct(82) ? 0 : (g.r.pct(50) ? -(long)g.r.range(1, 2) : (long)g.r.range(1, 2));
+      long at = g.r.pct(80) ? 0 : (long)g.r.range(1, 60);
+      int kind = (int)g.r.below(100);
+      std::string dest, iface = "com.example.Iface";
+      int type = wire::T_CALL;
+      if (kind < 35) dest = "$u" + std::to_string(g.a_client());
+      else if (kind < 55) dest = g.a_name();
+      else if (kind < 62) dest = "com.example.nobody";
+      else if (kind < 70) dest = "org.freedesktop.DBus";
+      else { type = wire::T_SIGNAL; dest = g.r.pct(20) ? "$u" + std::to_string(g.a_client()) : ""; }
+      if (g.r.pct(20)) iface = "com.example.Denied";
+      std::string member = dest == "org.freedesktop.DBus" ? "GetId" : "PassFds";
+      if (dest == "org.freedesktop.DBus") iface = "org.freedesktop.DBus";
+      g.add(g.mk("send", from, {type, g.r.pct(30) ? 1 : 0, g.deliver_mode(), 0, 0, 0, g.r.pct(15) ? 1 : 0, 0, 0, nf, delta, at},
+                 {dest, "/obj", iface, member, "", ""}));
+      if (g.r.pct(12)) g.add(g.mk("close", from));                     // sender goes away right behind its message
+      else if (g.r.pct(10)) g.add(g.mk("close", g.a_client()));        // or somebody else (perhaps the recipient)
+    } else if (x < 72) {
+      g.add(g.mk("send", from, {wire::T_CALL, 0, -1}, {"$u" + std::to_string(g.a_client()), "/obj", "com.example.Iface", "Plain", "", ""}));
+    } else if (x < 80) {
+      g.add(g.mk("reply", g.a_client(), {(int64_t)g.r.below(4), g.r.pct(80) ? 0 : 1, -1}));
+    } else if (x < 84) {
+      g.add(g.mk("adv", -1, {g.r.pct(50) ? (int64_t)g.r.range(1, 200) : (int64_t)g.r.range(200, 3000)}));
+    } else if (x < 88) {
+      g.add(g.mk("stall", g.a_client(), {g.r.pct(50) ? 1 : 0}));
+    } else g.add(g.mk("deliver", from, {-1}));
+    g.pump();
+    if (g.r.pct(15)) g.add(g.mk("check"));
+  }
+  return g.p;
+}
+
 // ---------------------------------------------------------------- C14: allocation failure at every point of one operation
 
 Plan gen_c14(uint64_t seed, bool th) {
@@ -1024,6 +1107,7 @@ Plan generate(const std::string &prop, uint64_t seed, bool thorough) {
   if (prop == "C06") return gen_c06(seed, thorough);
   if (prop == "C18") return gen_c18(seed, thorough);
   if (prop == "C14") return gen_c14(seed, thorough);
+  if (prop == "C15") return gen_c15(seed, thorough);
   core::harness_error("no generator for property %s", prop.c_str());
 }
 
